@@ -67,9 +67,7 @@ class C12(XsProp):
             for _ in range(rng.randint(3, 12)):
                 k = rng.choice(pool)
                 r = rng.random()
-                ksrc = cells.source(cells.strip(k))
-                if ksrc is None:
-                    continue
+                ksrc = cells.source(cells.strip(k))     # None for values that have no literal (reals): they are pushed, never written
                 ktxt = cells.fmt(k)
                 if r < 0.12:
                     # the map is replaced by a literal, often with a key written twice: the last pair wins, as with successive inserts
